@@ -494,6 +494,41 @@ func runC05(c *core.Ctx) error {
 	if err := runManyRefs(c); err != nil {
 		return err
 	}
+	// names referred to by `allOf` at every depth: the projects of AllOf.tla with nested heirs whose only defect is a
+	// withheld definition (refusal class "missing") must be answered with 1302, wherever the list that names it stands
+	{
+		cfg := "AllOf_refs_nest.cfg"
+		body := "SPECIFICATION Spec\nCONSTANTS\n  N = 2\n  KeySet = {\"k1\", \"k2\"}\n  MaxList = 1\n  APs = {\"absent\"}\n  Nest = TRUE\n  RootChoice = FALSE\n  OptDefTypes = FALSE\n  SelfReg = FALSE\nINVARIANTS Emit\nCHECK_DEADLOCK FALSE\n"
+		var miss []aoCase
+		res, err := tlc.Run(tlc.Opts{Module: "AllOf", Cfg: cfg, Workers: 8, Files: map[string][]byte{cfg: []byte(body)}, OnLine: func(l string) {
+			if !strings.Contains(l, `"refusals":["missing"]`) {
+				return
+			}
+			var cs aoCase
+			if json.Unmarshal([]byte(l), &cs) == nil {
+				miss = append(miss, cs)
+			}
+		}})
+		res.Cleanup()
+		if err != nil {
+			return err
+		}
+		if err := res.MustOK(); err != nil {
+			return err
+		}
+		c.AddTLC(cfg, res)
+		if len(miss) == 0 {
+			return fmt.Errorf("%s: no project with a withheld definition", cfg)
+		}
+		core.ParallelFor(len(miss), func(i int) {
+			c.CountEval(1)
+			for _, f := range aoEvalAfter(miss[i], nil) {
+				f.Class = "refs:allof-project:" + f.Class
+				c.Report(miss[i], []core.Finding{f})
+			}
+		})
+		c.Set("allof_projects_with_withheld_definition", len(miss))
+	}
 	c.Sample(strings.Split(rpDump(cases[len(cases)/2]), "\n"))
 	c.Set("rule", "every hygienic project of RefPositions.tla: root object with 1-2(3) mentions of @a/@b/@c in the positions value, choice, key shortcut, type, or (name), or (rule-set), allOf, additionalProperties; type definitions that mention each other one level further (acyclic); every subset of definitions registered; with and without an unused extra type. Replayed: UsedUserTypes() as a duplicate-free set = Used, Check() = 1302 naming a member of Missing iff Missing is not empty, all observables identical with and without the unused type. distinct_nontrivial = distinct projects")
 	c.Assume = append(c.Assume, "kinds fit positions (key/type/or positions use string types, allOf an object type); a registered type nothing reaches mentions registered names only")
@@ -503,6 +538,16 @@ func runC05(c *core.Ctx) error {
 func init() {
 	register(&core.Check{ID: "C05", Level: "model_checking", Run: runC05,
 		Replay: func(c *core.Ctx, raw json.RawMessage) ([]core.Finding, error) {
+			var probe struct {
+				Refusals []string `json:"refusals"`
+			}
+			if json.Unmarshal(raw, &probe) == nil && probe.Refusals != nil {
+				var ao aoCase
+				if err := json.Unmarshal(raw, &ao); err != nil {
+					return nil, err
+				}
+				return aoEvalAfter(ao, nil), nil
+			}
 			var mr mrCase
 			if json.Unmarshal(raw, &mr) == nil && len(mr.Mentions) > 0 {
 				return mrEval(mr), nil
